@@ -130,6 +130,20 @@ class SeqCheck:
                 astats, d3 = seqsuite.run(ctx, os.path.join(bindir, 'asyncrun'), [('arand', ['arand', ctx.seed, n, 20, 100])], mode='async')
                 divs += d3; stats.steps += astats.steps; stats.histories += astats.histories; stats.distinct |= astats.distinct
                 ctx.notes['async_suite'] = astats.summary()
+        if getattr(self, 'corpus_dir', 'seq') == 'seq' and not seqsuite.HUNG:
+            # second pass in the build a user ships, as far as the semantics go (profile `nodebug`: debug_assert!s compiled out, no overflow
+            # checks): the corpus and a random suite again - what only a debug build does (or only a build without debug assertions) shows here
+            bindir2, log2 = ctx.build_harness(('seqrun',), profile='nodebug')
+            if bindir2 is None:
+                ctx.violation('the harness does not build against the current /repo tree without debug assertions (tie broken)', '## cargo build --profile nodebug failed\n' + log2[-4000:], no_input=True)
+            else:
+                self._runner_nodebug = r2 = os.path.join(bindir2, 'seqrun')
+                if cf:
+                    cs2, cd2 = seqsuite.run_files(ctx, r2, 'corpus-nodebug', [cf]); divs += cd2
+                n2 = 400 if ctx.tier == 'quick' else 6000
+                st2, dv2 = seqsuite.run(ctx, r2, [('rand-nodebug', [getattr(self, 'nodebug_gen', 'rand'), ctx.seed + 7, n2, 20, 100])]); divs += dv2
+                stats.steps += st2.steps; stats.histories += st2.histories; stats.distinct |= st2.distinct
+                ctx.notes['nodebug_pass'] = {'histories': st2.histories + (cs2.histories if cf else 0), 'steps': st2.steps, 'profile': 'dev + debug-assertions=false + overflow-checks=false'}
         # (an operation that does not return was seen: the probes would hang as well - the history at hand is the failing input)
         if self.extra and not seqsuite.HUNG: self.extra(ctx, seqrun, stats, divs)
         self.decide(ctx, divs, proof_broken, log)
@@ -153,7 +167,8 @@ class SeqCheck:
     def _minimise(self, ctx, d, pred=None):
         """delta-debugging, one operation at a time: drop every operation whose removal keeps the same failure at the last step"""
         pred = pred or self.pred
-        runner = getattr(self, '_runner', None)
+        nd = 'nodebug' in (d.suite or '')
+        runner = getattr(self, '_runner_nodebug' if nd else '_runner', None)
         if runner is None or d.idx < 1 or d.suite in ('arand', 'varand') or 'vmem=1' in (d.cfg or '') or 'kind=async' in (d.cfg or ''): return d
         mode = 'seq'
         cur = d.prefix()
@@ -161,7 +176,7 @@ class SeqCheck:
         def fails(ops):
             path = os.path.join(ctx.work, 'min.hist')
             with open(path, 'w') as f: f.write('\n'.join([d.header, d.cfg] + ops) + '\n')
-            st, dv = seqsuite.run_files(ctx, runner, 'min', [path], mode=mode)
+            st, dv = seqsuite.run_files(ctx, runner, 'min-nodebug' if nd else 'min', [path], mode=mode)
             for x in dv:
                 if x.idx == len(ops) - 1 and x.kind == d.kind and pred(x): return x
             return None
@@ -223,7 +238,7 @@ def generic_replay(check, ctx, path):
         print('\n'.join(out.strip().split('\n')[-6:]))
         return 1 if (rc != 0 or 'MISMATCH' in out) else 0
     if 'kind=async' in txt:
-        bindir, log = ctx.build_harness(('asyncrun',), features='vmem' if vm else None)
+        bindir, log = ctx.build_harness(('asyncrun',), features='vmem' if vm else None, profile='nodebug' if (not vm and re.search(r'suite [\w-]*nodebug', txt)) else 'dev')
         if bindir is None: print(log[-2000:]); return 2
         ok, log = ctx.build_model()
         runner, mode = os.path.join(bindir, 'asyncrun'), 'async'
@@ -233,7 +248,8 @@ def generic_replay(check, ctx, path):
         ok, log = ctx.build_model()
         runner, mode = os.path.join(bindir, 'seqrun'), 'seq'
     else:
-        bindir, log = ctx.build_harness(('seqrun',))
+        # a history found in the pass without debug assertions is replayed on that build
+        bindir, log = ctx.build_harness(('seqrun',), profile='nodebug' if re.search(r'suite [\w-]*nodebug', txt) else 'dev')
         if bindir is None: print(log[-2000:]); return 2
         ok, log = ctx.build_model()
         runner, mode = os.path.join(bindir, 'seqrun'), 'seq'
@@ -513,6 +529,7 @@ class LedgerCheck(SeqCheck):
     """C08 / C09: owned-item histories (three item layouts: 4, 16 and 24 bytes), ledger events compared per step and the
     set of live objects compared at the end of every history."""
     with_async = True      # the async wrappers push / pop owned items through the same core: part of the footprint
+    nodebug_gen = 'rando'  # the pass without debug assertions runs owned-item histories
     def suites(self, ctx):
         s = ctx.seed
         if ctx.tier == 'quick':
@@ -611,6 +628,15 @@ class AsyncCheck(SeqCheck):
         ok, log = ctx.check_proofs(self.propfiles)
         satlog = []
         stats, divs = seqsuite.run(ctx, runner, self.suites(ctx), mode='async', satlog=satlog)
+        if not seqsuite.HUNG:
+            # second pass without debug assertions / overflow checks (profile `nodebug`), see SeqCheck.run
+            bindir2, log2 = ctx.build_harness(('asyncrun',), profile='nodebug')
+            if bindir2 is None:
+                ctx.violation('the async harness does not build against the current /repo tree without debug assertions (tie broken)', '## cargo build --profile nodebug failed\n' + log2[-4000:], no_input=True)
+            else:
+                st2, dv2 = seqsuite.run(ctx, os.path.join(bindir2, 'asyncrun'), [('arand-nodebug', ['arand', ctx.seed + 7, 300 if ctx.tier == 'quick' else 6000, 20, 100])], mode='async')
+                divs += dv2; stats.steps += st2.steps; stats.histories += st2.histories; stats.distinct |= st2.distinct
+                ctx.notes['nodebug_pass'] = {'histories': st2.histories, 'steps': st2.steps, 'profile': 'dev + debug-assertions=false + overflow-checks=false'}
         extra = {}
         if self.wake_oracle: extra = self.wake_check(ctx, satlog)
         if ctx.prop in ('C14', 'C15') and not seqsuite.HUNG:
